@@ -94,6 +94,9 @@ func (ex *Exec) unsupported(fr *frame, what string) {
 
 // rtPanic raises a Go run-time panic in the target program.
 func (ex *Exec) rtPanic(msg string) {
+	if ex.cur != nil {
+		ex.lastPanicWhere = ex.cur.where()
+	}
 	panic(targetPanic{Iface{t: ex.prog.runtimeErrorType(), v: "runtime error: " + msg}})
 }
 
@@ -436,6 +439,7 @@ func (ex *Exec) runFrame(fr *frame) {
 				panic(pathAbort{"unwind", fmt.Sprintf("step budget %d exceeded in %s", ex.maxSteps, fr.fn)})
 			}
 			fr.curInstr = instr
+			ex.cur = fr
 			if ex.visitInstr(fr, instr) == kReturn {
 				return
 			}
